@@ -28,6 +28,7 @@ type props struct {
 	views      bool // C14
 	fields     bool // C09
 	encode     bool // C10
+	topFirst   bool // every query on the higher-level views (and the v3 reports) is made before the lower-level scores are asked
 }
 
 var noScore = props{scoreLevel: -1}
@@ -275,6 +276,14 @@ func evalDecoded(r *ev.Run, P props, st *enumStats, c *dcase) any {
 			return []int{v3Want(&c3, lv)}, false
 		}
 		return v2Want(c2, lv, false)
+	}
+	if P.topFirst {
+		for lv := c.level; lv >= 1; lv-- {
+			lib.Observe(lib.Sub(obj, lv))
+		}
+		if c.ver == 3 {
+			reportScoreText(obj, c.level)
+		}
 	}
 	var scores [3]float64
 	for lv := 0; lv <= c.level; lv++ {
